@@ -8,7 +8,7 @@ from ovld import Ovld
 
 import gen_dependent as GD
 
-CORPUS = {bytes: [b"ab", b"x"], int: [0, 1, 2, 3, 4, 5, 6, 7, -1, 101, True], str: ["a", "b", "ab", "ca", "xb", "", "abc"], bool: [True, False], tuple: [(1, "a"), (1, 1), (1,), (2, "b"), ("a", 1)]}
+CORPUS = {bytes: [b"ab", b"x"], int: [0, 1, 2, 3, 4, 5, 6, 7, -1, 101, True], str: ["a", "b", "ab", "ca", "xb", "", "abc"], bool: [True, False], tuple: [(1, "a"), (1, 1), (1,), (2, "b"), ("a", 1), (1.0, "a"), (True, "a"), (1, "a", 2)]}
 
 
 def main():
@@ -84,7 +84,7 @@ def main():
                     want = "AMBIGUOUS"
                 if got != want:
                     mixed_first = any(len({type(p) for p in getattr(t, "parameters", ())}) > 1 for row in norm for t in row if type(t).__name__ == "Equals")
-                    kind = "unionbound" if got.startswith("TypeError:") or got.startswith("AttributeError") else "overlap" if want == "AMBIGUOUS" and got.startswith("h") else "bound_first_value" if mixed_first else "product" if "tuple" in label and want != "AMBIGUOUS" and got == "AMBIGUOUS" else "mismatch"
+                    kind = "unionbound" if (got.startswith("TypeError:") or got.startswith("AttributeError")) and " | " in label else "overlap" if want == "AMBIGUOUS" and got.startswith("h") else "bound_first_value" if mixed_first else "product" if "tuple" in label and want != "AMBIGUOUS" and got == "AMBIGUOUS" else "mismatch"
                     fail(f"{kind}[{label[:60]}]" if kind == "mismatch" else kind, family=label, values=[repr(v) for v in vals], got=got, expected=want, matching=[f"h{h}" for h in matches])
     # value types on keyword-only parameters (alone, and next to a conditioned positional)
     from typing import Literal
